@@ -239,7 +239,7 @@ func runNative(pkg, dir, work string) (string, error) {
 	}
 	fmt.Fprintf(&sb, "//go:build verif\n\npackage %s\n\nimport (\n\t\"testing\"\n\n\tvrt \"github.com/nuetzliches/hookaido/internal/verifrt\"\n)\n\nfunc TestVerifReplay(t *testing.T) {\n\tvrt.RunReplays(t, map[string]func(){\n", pkgName)
 	for _, h := range all {
-		if h.Pkg == pkg {
+		if _, skip := skippedOverlay[harnessVirtualPath(h)]; h.Pkg == pkg && !skip {
 			fmt.Fprintf(&sb, "\t\t%q: %s,\n", h.Fn, h.Fn)
 		}
 	}
@@ -393,4 +393,8 @@ func validateJSONModel(work string) (string, error) {
 		}
 	}
 	return "", fmt.Errorf("%v: %s", err, tail(string(out), 600))
+}
+
+func harnessVirtualPath(h Harness) string {
+	return filepath.Join(repoRoot, h.Pkg, "zz_verif_"+filepath.Base(h.File))
 }
